@@ -46,6 +46,27 @@ CLAIMED = {
    text=('Theorems for every order n and every point of the domain: iteratedDeriv n f x equals the closed form of the model for exp, exp2, expm1, log, log2/log10, log1p, sqrt, square, negative, reciprocal, '
          'sin, cos, sinh, cosh, arctanh; gammaln/psi/polygamma and hyperu relative to the first-order relations of their SciPy leaves. arctan, arcsin, arccos, arcsinh, arccosh, erf, erfi and the piecewise '
          'functions are modelled exactly (Gaussian rationals / finite sums) and tied by correspondence plus an independent Cauchy-integral oracle on the implementation, without an all-n theorem yet (partial).')),
+ 'C03': dict(
+   technique='Lean 4 theorem (cell-level tape: reverse sweep is the adjoint of the tangent sweep, any commutative ring, overwrites) + local adjoint lemmas + adjoint-identity oracle',
+   text=('Theorem for every tape, heap, tangent and seed over any commutative ring (A = R[t]/(t^D)): <rev tape h seed, dh> = <seed, tan tape h dh>, with in-place overwrites (also buf[i]=buf[i]); local adjoint '
+         'lemmas for add/sub/mul/truediv/scale/copy, every unary function with multiplicative tangent, sum of any arity and dot, each mirroring a pb_* formula; the series-level pullback kernels (25 unary + 4 binary, '
+         'tied to the code through the tracer by exact correspondence) are those ring expressions. The lowering of array programs to tapes is argued, not mechanised, and the matrix pullbacks have no local lemma (partial); '
+         'whole programs incl. all matrix functions and factorizations are checked by the adjoint identity with forward-only tangents (degree doubling).')),
+ 'C04': dict(
+   technique='Lean 4 corollaries of the tape adjoint theorem (gradient / vec_jac as the derivative functional at the heap point) + drivers vs forward-mode and exact analytic derivatives',
+   text=('Theorems: the sweep seeded with an output cell (resp. a weight vector) returns dx -> F\'(x)dx (resp. w^T J(x)) at the evaluation point held by the heap, for every tape. All eight drivers and jacobian(UTPM) '
+         'are checked on the implementation at points different from the recording point / kind / degree against forward-mode derivatives of the same program and exact analytic derivatives of integer polynomial programs; '
+         'the seeding/slicing index arithmetic of the second-order drivers has no theorem (partial).')),
+ 'C05': dict(
+   technique='Lean 4 invariant by induction over operation sequences (recording state machine) + structural correspondence + replay oracle',
+   text=('Theorems for every finite operation sequence: functionCount = len, ID = position, arguments precede users, exactly one node per operation while tracing is on and none while off, recorded nodes never change. '
+         'The real functionList of every generated program is compared node by node (name, ID, argument IDs) with the model; replay values with other kinds/(D,P), repeated in any order, keyword arguments and two interleaved graphs '
+         'are checked against direct runs (partial: no theorem about Python object state).')),
+ 'C06': dict(
+   technique='Lean 4 theorems on the write/save/restore/re-apply heap discipline (a sweep preserves every forward value; k sweeps too) + counterexample theorems for the two repaired defects + call-history oracle',
+   text=('Theorems for every list of in-place writes and every heap: the restores of a reverse sweep fed with the contents saved on this evaluation return the buffers to their initial state, re-applying the writes returns '
+         'the forward values, hence any number of sweeps leave the forward values intact; counterexamples for stale stores and missing re-apply (the old behaviour). Random call histories (forward evaluations, sweeps, all drivers, '
+         'second graphs) are checked call by call against fresh graphs, with node-value snapshots around cg.pullback (partial: read-only-ness of pullback kernels has no theorem).')),
 }
 _todo = 'check under construction in this session: Lean model/theorems and correspondence not committed yet'
 NOT_APPLICABLE = {('C%02d' % i): _todo for i in range(1, 18)}
